@@ -34,49 +34,16 @@ def graphemeClusters (cfg : Config) (env : Env) (ws : List Str) : List Cluster :
   let cs := if cfg.charClassFeature then cs.map (convertClasses cfg) else cs
   if cfg.rep then cs.map (convertRepetitions cfg) else cs
 
-/-- the colour-stripping regex of `convert_expr_to_regex`: ESC `[` (`\d+;\d+` | `0`) `m` -/
-def stripColor : Nat → Str → Str
-  | 0, s => s
-  | fuel + 1, s =>
-    match s with
-    | [] => []
-    | 27 :: 91 :: rest =>
-      let isD := fun c => Spec.perlMember .digit c
-      let d1 := rest.takeWhile isD
-      let r1 := rest.dropWhile isD
-      let long : Option Str :=
-        if d1.isEmpty then none else
-        match r1 with
-        | 59 :: r2 =>
-          let d2 := r2.takeWhile isD
-          let r3 := r2.dropWhile isD
-          -- `\d+` is greedy but may give back digits; only an `m` right after the digits can match
-          if d2.isEmpty then none else
-          match r3 with
-          | 109 :: r4 => some r4
-          | _ => none
-        | _ => none
-      match long with
-      | some r => stripColor fuel r
-      | none =>
-        match rest with
-        | 48 :: 109 :: r => stripColor fuel r
-        | _ => 27 :: stripColor fuel (91 :: rest)
-    | c :: rest => c :: stripColor fuel rest
-
-/-- `convert_expr_to_regex` (+ the verbose line-break removal of the first check) -/
-def regexOfExpr (cfg : Config) (dropNewlines : Bool) (e : Expr) : Except Panic (Spec.Flags × Spec.Pat) :=
+/-- the pattern text `convert_expr_to_regex` hands to `Regex::new`
+(+ the verbose line-break removal of the first check) -/
+def regexText (cfg : Config) (dropNewlines : Bool) (e : Expr) : Str :=
   let s := fmtExpr cfg e
   let s := if cfg.color then stripColor (s.length + 1) s else s
-  match Spec.parse s with
-  | none => .error (.regexInvalid s)
-  | some r =>
-    if dropNewlines then
-      let s' := s.filter (· ≠ 10)
-      match Spec.parse s' with
-      | none => .error (.regexInvalid s')
-      | some r' => .ok r'
-    else .ok r
+  if dropNewlines then s.filter (· ≠ 10) else s
+
+/-- `convert_expr_to_regex`: `Regex::new(..).ok()` -/
+def regexOfExpr (cfg : Config) (e : Expr) : Option (Spec.Flags × Spec.Pat) :=
+  Spec.parse (regexText cfg false e)
 
 /-- `regex_matches_all_test_cases` -/
 def matchesAll (r : Spec.Flags × Spec.Pat) (ws : List Str) : Bool :=
@@ -89,6 +56,8 @@ structure Stages where
   minimized : Dfa
   firstAst : Expr
   finalAst : Expr
+  /-- self-check trace: (pattern text given to the regex crate, verdict of `matchesAll`) -/
+  trace : List (Str × Bool)
 
 /-- `RegExp::from`; returns the stored (mutated) test cases and the expression kept -/
 def regExpFrom (cfg : Config) (env : Env) (ws : List Str) : Except Panic Stages :=
@@ -100,22 +69,36 @@ def regExpFrom (cfg : Config) (env : Env) (ws : List Str) : Except Panic Stages 
   | none => .error (.index "minimize: fuel")
   | some dmin =>
     let ast := Expr.ofDfa cfg dmin
-    let mk := fun (final : Expr) => (Except.ok
-      { sorted := sorted, clusters := clusters, trie := trie, minimized := dmin, firstAst := ast, finalAst := final } : Except Panic Stages)
+    let mk := fun (final : Expr) (tr : List (Str × Bool)) => (Except.ok
+      { sorted := sorted, clusters := clusters, trie := trie, minimized := dmin, firstAst := ast,
+        finalAst := final, trace := tr } : Except Panic Stages)
     if cfg.noStart && cfg.noEnd then
-      match regexOfExpr cfg cfg.verb ast with
-      | .error e => .error e
-      | .ok re =>
-        -- the rotation loop never recompiles the regex: it succeeds on its first iteration or not at all
-        if decide (sorted.length > 1) && matchesAll re sorted then mk ast
-        else
-          let ast2 := Expr.ofDfa cfg trie
-          match regexOfExpr cfg false ast2 with
-          | .error e => .error e
-          | .ok re2 =>
-            if matchesAll re2 sorted then mk ast2
-            else mk (Expr.newAlternation (clusters.map Expr.lit))
-    else mk ast
+      match regexOfExpr cfg ast with
+      | none => mk ast []                       -- a candidate the regex crate rejects cannot be checked
+      | some re0 =>
+        -- verbose: `Regex::new(&regex.to_string().replace('\\n', "")).unwrap()`
+        let re1 : Except Panic (Spec.Flags × Spec.Pat) :=
+          if cfg.verb then
+            match Spec.parse (regexText cfg true ast) with
+            | some r => .ok r
+            | none => .error (.regexInvalid (regexText cfg true ast))
+          else .ok re0
+        match re1 with
+        | .error e => .error e
+        | .ok re =>
+          -- the rotation loop never recompiles the regex: it succeeds on its first iteration or not at all
+          let v1 := decide (sorted.length > 1) && matchesAll re sorted
+          let t1 := (regexText cfg cfg.verb ast, matchesAll re sorted)
+          if v1 then mk ast [t1]
+          else
+            let ast2 := Expr.ofDfa cfg trie
+            match regexOfExpr cfg ast2 with
+            | none => mk (Expr.newAlternation (clusters.map Expr.lit)) [t1]
+            | some re2 =>
+              let t2 := (regexText cfg false ast2, matchesAll re2 sorted)
+              if matchesAll re2 sorted then mk ast2 [t1, t2]
+              else mk (Expr.newAlternation (clusters.map Expr.lit)) [t1, t2]
+    else mk ast []
 
 /-- builder state: (`test_cases`, `config`) -/
 structure Builder where
